@@ -61,7 +61,9 @@ def jobs(tier):
         J.append(V.Job("param_hash." + nm, "vnacal/c01_hash.c", "h_param_hash",
                        C20.BASE + ["vnacal_make_scalar_parameter.c", "vnacal_delete_parameter.c"],
                        defines=C20.CUT + ["-DHASH_SEQ=" + sq], unwind=6,
-                       cbmc_flags=["--unwindset", "hash_expand.0:18,hash_expand.1:18,hash_expand.2:18,_vnacal_new_free_parameter_hash.0:34,_vnacal_new_free_parameter_hash.1:34,_vnacal_teardown_parameter_collection.0:24,_vnacal_teardown_parameter_collection.1:24"], union_struct=True, kind="bounded",
+                       unwindset={"hash_expand.0": 18, "hash_expand.1": 18, "hash_expand.2": 18, "_vnacal_new_free_parameter_hash.0": 34,
+                                  "_vnacal_new_free_parameter_hash.1": 34, "_vnacal_teardown_parameter_collection.0": 24,
+                                  "_vnacal_teardown_parameter_collection.1": 24}, union_struct=True, kind="bounded",
                        canary=(nm == "grow_16_first"),
                        functions=["hash_expand", "hash_lookup", "hash_insert", "_vnacal_new_get_parameter",
                                   "_vnacal_new_init_parameter_hash", "_vnacal_new_free_parameter_hash"],
